@@ -73,7 +73,7 @@ impl AssemblyWindow {
     pub fn new(max_alloc: usize) -> Self {
         let window: Vec<WindowEntry> = (0 .. MAX_PACKET_WINDOW_SIZE).map(|_| WindowEntry::Open).collect();
 
-        let max_alloc_ceil = ((max_alloc + MAX_FRAGMENT_SIZE - 1) / MAX_FRAGMENT_SIZE) * MAX_FRAGMENT_SIZE;
+        let max_alloc_ceil = (max_alloc.saturating_add(MAX_FRAGMENT_SIZE - 1) / MAX_FRAGMENT_SIZE) * MAX_FRAGMENT_SIZE;
 
         Self {
             window: window.into_boxed_slice(),
